@@ -490,10 +490,12 @@ Print Assumptions C10_stacked_index_val.
    (C10_add_axis_lifts_fresh_partial); a mapped function that takes q WHOLE gets `q[:, .., k]` appended to its inputs
    (C10_add_axis_lifts_whole_partial).  So the pointwise statement holds for every per-function step of
    add_mapspec_axis in which the axis is new to the function.
-   NOT proved: the assembly over all indices into arrays (slice_last of denote_mapped), the induction along the
-   pipeline through func_shape (shapes of the lifted MapSpecs), and functions that already carry the axis; they
-   remain checked by the correspondence (Corr/Run_C10Map.v, kind add_axis: the implementation and map_run are
-   compared per slice). *)
+   The assembly of the elements into arrays, for one function without internal axes, is C10_add_axis_lifts_func_partial
+   and C10_add_axis_lifts_func_fresh_partial further below (slice_last of every output array).
+   NOT proved: the induction along the pipeline through func_shape (that the lifted MapSpecs get the shapes sh0 ++ [K]
+   and that the arrays handed from one function to the next are the stacked ones), and functions that already carry
+   the axis; they remain checked by the correspondence (Corr/Run_C10Map.v, kind add_axis: the implementation and
+   map_run are compared per slice). *)
 Theorem C10_add_axis_lifts_elem_partial : forall body f q dims k ms ms' e n sh arrs an kw mask idx j,
   fspec f = Some ms -> mem_str q (map aname (ins ms)) = true ->
   (forall a, In a (ins ms ++ outs ms) -> has_axis k a = false) ->
@@ -576,3 +578,51 @@ Example C10_example_add_axis_lifts :
     /\ denote_elem body f ms' [(s "x", VA (stacked [2] [a0; a1]))] [true; true] 0 [1; 0] = Ok (s "f(q)")
     /\ denote_elem body f ms [(s "x", VA a0)] [true] 0 [1] = Ok (s "f(q)").
 Proof. exact add_axis_lifts_instance. Qed.
+
+(* ---------- add_mapspec_axis, value level, one function, arrays ---------- *)
+(* a function WITH a MapSpec and no internal axes (mask all true; sh0 its output shape, one entry per external index);
+   both branches of new_spec (q mapped by the function / q taken whole): if the function with the new MapSpec, applied
+   to q := stack of arrs, yields the arrays arrs' of shape sh0 ++ [K], then for every n the ORIGINAL function applied
+   to q := arrs[n] yields arrays arrs_n, and the slice of each array of arrs' at n along the new (last) axis
+   (slice_last) is the corresponding array of arrs_n (as_val: a 0-d result is the scalar) *)
+Theorem C10_add_axis_lifts_func_partial : forall body f q dims k ms ms' sh arrs kw sh0 mask arrs',
+  fspec f = Some ms ->
+  (forall a, In a (ins ms ++ outs ms) -> has_axis k a = false) ->
+  (mem_str q (map aname (ins ms)) = true \/ (dict_get dims q = Some (Datatypes.S (length sh)) /\ sh <> [])) ->
+  new_spec f q dims k = Ok ms' ->
+  (forall a, In a arrs -> shp a = sh /\ length (dat a) = prod sh) ->
+  forallb id mask = true -> length mask = length sh0 -> length sh0 = length (external_indices ms) ->
+  denote_mapped body f ms' (map (setq q (VA (stacked sh arrs))) kw) (sh0 ++ [length arrs]) (mask ++ [true]) = Ok arrs' ->
+  forall n an, nth_error arrs n = Some an ->
+  exists arrs_n, denote_mapped body f ms (map (setq q (VA an)) kw) sh0 mask = Ok arrs_n
+    /\ Forall2 (fun A' A => slice_last n (VA A') = Some (as_val A)) arrs' arrs_n.
+Proof. exact add_axis_lifts_func. Qed.
+Print Assumptions C10_add_axis_lifts_func_partial.
+
+(* a function WITHOUT MapSpec: element n of output array j of the function that got `q[:, .., k] -> outs[k]` is the
+   j-th value the original unmapped call returns from q := arrs[n] *)
+Theorem C10_add_axis_lifts_func_fresh_partial : forall body f q k dims ms' sh arrs kw arrs',
+  fspec f = None -> new_spec f q dims k = Ok ms' ->
+  (forall a, In a arrs -> shp a = sh /\ length (dat a) = prod sh) ->
+  dict_get dims q = Some (Datatypes.S (length sh)) -> sh <> [] ->
+  denote_mapped body f ms' (map (setq q (VA (stacked sh arrs))) kw) [length arrs] [true] = Ok arrs' ->
+  forall n an, nth_error arrs n = Some an -> forall j A', nth_error arrs' j = Some A' ->
+  exists outs_n x, body f (map (setq q (VA an)) kw) = Ok outs_n /\ nth_error outs_n j = Some (VS x)
+                   /\ shp A' = [length arrs] /\ nth_error (dat A') n = Some x.
+Proof. exact add_axis_lifts_func_fresh. Qed.
+Print Assumptions C10_add_axis_lifts_func_fresh_partial.
+
+Example C10_example_add_axis_lifts_func :
+  let A nm ax := {| aname := nm; axes := ax |} in
+  let ms := {| ins := [A (s "x") [Some (s "i")]]; outs := [A (s "y") [Some (s "i")]] |} in
+  let f := {| fname := s "f"; fouts := [s "y"]; fparams := [s "x"]; fbound := []; fdefaults := [];
+              fspec := Some ms; fint := []; fret := [] |} in
+  let a0 := {| shp := [2]; dat := [s "p"; s "q"] |} in
+  let a1 := {| shp := [2]; dat := [s "r"; s "t"] |} in
+  let body := fun (g : mfunc) (kw : env) => match kw with [(_, VS v)] => Ok [VS (s "f(" ++ v ++ s ")")] | _ => Err ValueError end in
+  exists ms' Y' Y1, new_spec f (s "x") [(s "x", 2)] (s "k") = Ok ms'
+    /\ denote_mapped body f ms' [(s "x", VA (stacked [2] [a0; a1]))] [2; 2] [true; true] = Ok [Y']
+    /\ Y' = {| shp := [2; 2]; dat := [s "f(p)"; s "f(r)"; s "f(q)"; s "f(t)"] |}
+    /\ denote_mapped body f ms [(s "x", VA a1)] [2] [true] = Ok [Y1]
+    /\ slice_last 1 (VA Y') = Some (VA Y1).
+Proof. exact add_axis_lifts_func_instance. Qed.
